@@ -57,8 +57,6 @@ def judge(case, impl, model):
         return KC.judge_sound(case, impl, model)
     if case['m'] == 'calllayer':          # acceptance by a @pedantic call: C03's oracle (body ran / value returned => conforms)
         j = _C03.judge(case, impl, model)
-        if j.get('finding') == 'namedtupleStructuralArgument':
-            j['finding'] = 'namedtupleStructural'
         j['tag'] = 'call/' + j['tag']
         return j
     if case['m'] == 'typesafe':           # acceptance by a type-safe frozen dataclass: only the soundness direction belongs to C01
@@ -78,11 +76,10 @@ def judge(case, impl, model):
     regions = model['regions']
     if ic == 'accept' and not model['spec'] and 'fwdUnresolved' not in regions:
         pfail = 'accepted although the value does not conform to the annotation (spec `conforms` = false)'
-        if 'iterator' in regions and 'namedtuple' not in regions:
+        if 'iterator' in regions:
             pfail = 'accepted although the pending items of a one-shot iterator do not conform to the element type (spec `conforms` = false)'
-        if corr:
-            if 'namedtuple' in regions: finding = 'namedtupleStructural'
-            elif 'iterator' in regions: finding = 'iteratorItemsUnchecked'       # not looked at by design: it would consume the iterator (C04)
+        if corr:       # (the former region `namedtupleStructural` is repaired: a NamedTuple value is an ordinary value now)
+            if 'iterator' in regions: finding = 'iteratorItemsUnchecked'       # not looked at by design: it would consume the iterator (C04)
     ann, val = case['c']['ann'], case['c']['val']
     nontrivial = ann[0] not in ('cls', 'any', 'none') or val[0] not in ('lit', 'inst')
     j = {'corr': corr, 'pfail': pfail, 'finding': finding, 'nontrivial': nontrivial, '_under': bool(model.get('underC01')),
@@ -95,7 +92,7 @@ def extra_coverage(results):
     cov = T.coverage(results)
     chk = [j for (c, i, m, j) in results if c.get('m') == 'checker' and '_under' in j]
     # how many generated checker cases meet every hypothesis of `sound_partial` as the driver evaluates them (local string-annotation
-    # guard, no unsupported node, well-formed value, no NamedTuple instance / one-shot iterator): the theorem speaks about these
+    # guard, no unsupported node, well-formed value, no one-shot iterator): the theorem speaks about these
     cov['cases_under_sound_partial'] = sum(1 for j in chk if j['_under'])
     cov['checker_cases'] = len(chk)
     return cov
